@@ -4,13 +4,17 @@
    (withRetry / retryLocked / replayBufferLocked) for one RPC whose application sends all
    its messages, half-closes and then receives until an error.
 
-   Timing abstraction: which application call notices the failure of an attempt depends on
-   scheduling, but for this application pattern and server scripts that read at least one
-   message before acting, the facts shouldRetry reads are the same whenever it runs, unless
-   the replay buffer overflows after the first message (excluded by [rpc_wf]: the only
-   overflow considered is the first message).  Back-off durations and the throttle bucket
-   are C19; here throttling is an input bit of the decision function and is off in the runs.
-   No proofs in this file. *)
+   Schedule: the application sends message after message and every transport write (the
+   HEADERS of an attempt, every original or replayed message, the half-close) is followed by
+   quiescence (the driver forces it from a client stats.Handler), so an attempt's failure is
+   registered by the client before the next write.  Hence the failure of an attempt whose
+   server reads r messages is noticed when the application has produced
+   max(sent so far, min(r, m)) messages, and cs.committed at that moment is "the replay buffer
+   limit was exceeded by one of these messages" - at any message, not only the first.
+   Server behaviours per attempt include the two kinds of unprocessed stream: RST_STREAM with
+   REFUSED_STREAM in answer to HEADERS, and a GOAWAY whose last-stream-id is below the stream.
+   Back-off durations and the throttle bucket are C19; here throttling is an input bit of the
+   decision function and is off in the runs.  No proofs in this file. *)
 From Coq Require Import List ZArith Bool.
 From VLib Require Import Codec.
 Import ListNotations.
@@ -53,51 +57,104 @@ Definition in_codes (p : policy) (c : Z) : bool := existsb (Z.eqb c) (p_codes p)
 (* server script of one attempt: read r messages (or until half-close), then
    act 0: fail with code c before sending headers (trailers-only), pushback kind pb
    act 1: send headers, then fail with code c
-   act 2: send headers and one reply, then status OK *)
+   act 2: send headers and one reply, then status OK
+   the server never processes the stream (r, c, pb unused):
+   act 3: answer the HEADERS with RST_STREAM(REFUSED_STREAM)
+   act 4: answer the HEADERS with GOAWAY, last-stream-id below this stream *)
 Record script := mksc { s_r : Z; s_act : Z; s_code : Z; s_pb : Z }.
 Definition default_script : script := mksc 1 2 0 0.
+Definition hd_script (scs : list script) : script := match scs with s :: _ => s | [] => default_script end.
+Definition unproc (sc : script) : bool := (s_act sc =? 3) || (s_act sc =? 4).
 
 (* what an attempt's handler receives: the first min(r, m) messages in order, and the
-   half-close iff it asked for more than m *)
-Record attempt := mkatt { a_prev : Z; a_recv : Z; a_eof : bool; a_sc : script }.
+   half-close iff it asked for more than m; nothing when the stream is unprocessed *)
+Record attempt := mkatt { a_prev : Z; a_recv : Z; a_eof : bool; a_sc : script;
+                          a_sent : Z;       (* messages already produced (replayed) when it starts *)
+                          a_first : bool }. (* cs.firstAttempt *)
+Definition recv_of (m : Z) (sc : script) : Z := if unproc sc then 0 else Z.min (s_r sc) m.
+Definition eof_of (m : Z) (sc : script) : bool := if unproc sc then false else m <? s_r sc.
 
-Definition first_overflows (p : policy) (sizes : list Z) : bool :=
-  match sizes with
-  | s :: _ => p_buf_limit p <? 5 + s
-  | [] => false
-  end.
+(* replay buffer: message of size s costs 5 + s (bufferForRetryLocked(len(hdr)+payloadLen));
+   [over p sizes n]: the limit is exceeded once the application has produced n messages
+   (commitAttemptLocked by bufferForRetryLocked; sizes are >= 0 so the sum is monotone) *)
+Definition cum (sizes : list Z) (n : Z) : Z :=
+  fold_right (fun s acc => 5 + s + acc) 0 (firstn (Z.to_nat n) sizes).
+Definition over (p : policy) (sizes : list Z) (n : Z) : bool := p_buf_limit p <? cum sizes n.
 
-Definition attempt_facts (p : policy) (committed : bool) (k : Z) (sc : script) : facts :=
-  mkfacts false committed false true false (k =? 0) false false
-          (s_act sc =? 0) (s_pb sc) true (in_codes p (s_code sc)) false k (eff_max p).
+(* number of messages the application has produced when the failure of an attempt that
+   started after [sent] messages is noticed *)
+Definition sent_after (m sent : Z) (sc : script) : Z :=
+  if unproc sc then sent else Z.max sent (Z.min (s_r sc) m).
+
+(* the facts shouldRetry reads for this attempt: a transport stream exists; an unprocessed
+   stream ends without headers (TrailersOnly() = noHeaders) with status Unavailable
+   (http2ErrConvTab[REFUSED_STREAM], statusGoAway) and no trailer metadata *)
+Definition attempt_facts (p : policy) (committed first : bool) (k : Z) (sc : script) : facts :=
+  mkfacts false committed false true false first (unproc sc) false
+          ((s_act sc =? 0) || unproc sc) (if unproc sc then 0 else s_pb sc) true
+          (in_codes p (if unproc sc then 14 else s_code sc)) false k (eff_max p).
 
 (* attempts made for the RPC: the list of scripts is consumed one per attempt; when it
-   runs out the server succeeds *)
-Fixpoint attempts (fuel : nat) (p : policy) (m : Z) (committed : bool) (k : Z) (scs : list script)
+   runs out the server succeeds.  first = cs.firstAttempt, k = cs.numRetries, sent = number
+   of messages produced (and buffered) when the attempt starts *)
+Fixpoint attempts (fuel : nat) (p : policy) (sizes : list Z) (first : bool) (k sent : Z) (scs : list script)
   : list attempt :=
   match fuel with
   | O => []
   | S f =>
-    let sc := match scs with s :: _ => s | [] => default_script end in
-    let a := mkatt k (Z.min (s_r sc) m) (m <? s_r sc) sc in
+    let sc := hd_script scs in
+    let m := Z.of_nat (length sizes) in
+    let a := mkatt k (recv_of m sc) (eof_of m sc) sc sent first in
     (* a response header or message commits the attempt *)
     if s_act sc =? 2 then [a] else
-    match should_retry (attempt_facts p committed k sc) with
-    | Retry => a :: attempts f p m committed (k + 1) (tl scs)
-    | _ => [a]
+    let sent' := sent_after m sent sc in
+    match should_retry (attempt_facts p (over p sizes sent') first k sc) with
+    | Retry => a :: attempts f p sizes false (k + 1) sent' (tl scs)
+    | Transparent => a :: attempts f p sizes false k sent' (tl scs)
+    | NoRetry => [a]
     end
   end.
 
-Definition final_code (l : list attempt) : Z :=
+(* What the application sees at the end.  Normally: the status of the last attempt, and the
+   reply iff it is OK.  One schedule-dependent exception of the real code is modelled as it
+   is (it is outside the text of C18, see the note in props/C18.v): when the last attempt is a
+   retry started by RecvMsg (all m messages were already produced) and its failure or early
+   completion is registered while its replay is still writing (stream unprocessed, or the
+   server stops reading before message [sent]), the replayed SendMsg fails with io.EOF,
+   retryLocked passes that io.EOF to shouldRetry as the error to report and RecvMsg returns it:
+   the application sees a clean end of stream (code 0, no reply) - or codes.Unknown when
+   shouldRetry wraps it in "max retries exhausted" - instead of the attempt's status. *)
+Definition exhausted (p : policy) (k : Z) (sc : script) : bool :=
+  (if unproc sc then in_codes p 14
+   else (s_act sc =? 0) && in_codes p (s_code sc) && ((s_pb sc =? 0) || (s_pb sc =? 1))) &&
+  (k + 1 >=? eff_max p).
+Definition masked (m : Z) (first : bool) (sent : Z) (sc : script) : bool :=
+  negb first && (sent =? m) && (unproc sc || (s_r sc <? sent)).
+Definition std_code (sc : script) : Z :=
+  if s_act sc =? 2 then 0 else if unproc sc then 14 else s_code sc.
+(* q: every write is followed by quiescence (false in the held-send schedule, where replays
+   are not slowed down and complete before the server reacts) *)
+Definition final_of (p : policy) (q : bool) (m : Z) (first : bool) (k sent : Z) (sc : script) : Z * Z :=
+  if q && masked m first sent sc then (if exhausted p k sc then 2 else 0, 0)
+  else (std_code sc, if s_act sc =? 2 then 1 else 0).
+Definition final_res (p : policy) (q : bool) (m : Z) (l : list attempt) : Z * Z :=
   match rev l with
-  | a :: _ => if s_act (a_sc a) =? 2 then 0 else s_code (a_sc a)
-  | [] => 0
+  | a :: _ => final_of p q m (a_first a) (a_prev a) (a_sent a) (a_sc a)
+  | [] => (0, 0)
+  end.
+
+(* messages produced when the failure of attempt number n-1 (0-based) is noticed *)
+Fixpoint sent_upto (m : Z) (scs : list script) (n : nat) (sent : Z) : Z :=
+  match n with
+  | O => sent
+  | S n' => sent_upto m (tl scs) n' (sent_after m sent (hd_script scs))
   end.
 
 (* ---------- wire format ----------
    cfg [maxAttempts; channelMax; bufLimit; n; code_1..code_n]
    op  [m; size_1..size_m; k; (r; act; code; pb) x k]      one RPC (m >= 1)
    op  [0; j; m; size_1..size_m; k; scripts]               the same RPC with the SendMsg of message j held (see below)
+   op  [-1; m; size_1..size_m; k; scripts]                 the same RPC committed by the application before sending (see below)
    obs [nattempts; (previous-attempts header; messages received; in order; half-close seen) x nattempts;
         final status code; replies received] *)
 Definition dec_cfg (cfg : word) : option policy :=
@@ -123,7 +180,7 @@ Fixpoint dec_scripts (fuel : nat) (w : word) : option (list script) :=
   end.
 
 Definition script_ok (s : script) : bool :=
-  (1 <=? s_r s) && (0 <=? s_act s) && (s_act s <=? 2) && (1 <=? s_code s) && (s_code s <=? 16) &&
+  (1 <=? s_r s) && (0 <=? s_act s) && (s_act s <=? 4) && (1 <=? s_code s) && (s_code s <=? 16) &&
   (0 <=? s_pb s) && (s_pb s <=? 3).
 
 Definition dec_plain (op : word) : option (list Z * list script) :=
@@ -144,22 +201,30 @@ Definition dec_plain (op : word) : option (list Z * list script) :=
    retryable failure of that attempt and creates and replays the next one; then SendMsg
    continues.  withRetry must notice that the attempt was replaced and re-issue the message,
    so the attempts receive exactly what they receive in the sequential run. *)
-Definition strip (op : word) : word := match op with 0 :: _ :: rest => rest | _ => op end.
+(* A third op form [-1; <plain op>]: the application calls ClientStream.Context() right after
+   NewStream, which commits the attempt (cs.commitAttempt) before anything is sent: nothing
+   may be retried, not even transparently.  Modelled as a replay buffer limit of -1 (exceeded
+   from the start: cs.committed is true whenever shouldRetry runs). *)
+Definition strip (op : word) : word :=
+  match op with 0 :: _ :: rest => rest | -1 :: rest => rest | _ => op end.
+Definition precommitted (op : word) : bool := match op with -1 :: _ => true | _ => false end.
+Definition pol_of (p : policy) (op : word) : policy :=
+  if precommitted op then mkpol (p_max p) (p_chan_max p) (p_codes p) (-1) else p.
 Definition stall_of (op : word) : Z := match op with 0 :: j :: _ => j | _ => 0 end.
+Definition quiesced (op : word) : bool := match op with 0 :: _ :: _ => false | _ => true end.
 Definition dec_op (op : word) : option (list Z * list script) := dec_plain (strip op).
 
-(* the modelled situation: the buffer limit is exceeded by the first message or never *)
-Definition rpc_wf (p : policy) (sizes : list Z) : bool :=
-  first_overflows p sizes || (fold_right (fun s acc => 5 + s + acc) 0 sizes <=? p_buf_limit p).
-
-(* the held-send scenario needs: first attempt reads exactly j messages and then fails in a
-   retryable way; the second attempt reads at least j messages; no buffer overflow *)
+(* the held-send scenario (not quiesced after every write: two application goroutines) needs:
+   the replay buffer limit is never exceeded, every stream is processed, the first attempt
+   reads exactly j messages and then fails in a retryable way, the second attempt reads at
+   least j messages *)
 Definition stall_wf (p : policy) (op : word) (sizes : list Z) (scs : list script) : bool :=
   match op with
   | 0 :: j :: _ =>
     match scs with
     | s0 :: s1 :: _ =>
-      (2 <=? j) && (j <=? Z.of_nat (length sizes)) && negb (first_overflows p sizes) &&
+      (2 <=? j) && (j <=? Z.of_nat (length sizes)) &&
+      negb (over p sizes (Z.of_nat (length sizes))) && forallb (fun s => negb (unproc s)) scs &&
       (s_r s0 =? j) && (s_act s0 =? 0) && in_codes p (s_code s0) && ((s_pb s0 =? 0) || (s_pb s0 =? 1)) &&
       (j <=? s_r s1)
     | _ => false
@@ -167,17 +232,19 @@ Definition stall_wf (p : policy) (op : word) (sizes : list Z) (scs : list script
   | _ => true
   end.
 
+(* at most eff_max counted attempts plus one transparent retry *)
 Definition rpc_attempts (p : policy) (sizes : list Z) (scs : list script) : list attempt :=
-  attempts (Z.to_nat (eff_max p) + 1) p (Z.of_nat (length sizes)) (first_overflows p sizes) 0 scs.
+  attempts (Z.to_nat (eff_max p) + 2) p sizes true 0 0 scs.
 
 Definition enc_attempt (a : attempt) : word := [a_prev a; a_recv a; 1; b2z (a_eof a)].
-Definition run_op (p : policy) (op : word) : option word :=
+Definition run_op (p0 : policy) (op : word) : option word :=
+  let p := pol_of p0 op in
   match dec_op op with
   | Some (sizes, scs) =>
-    if rpc_wf p sizes && stall_wf p op sizes scs then
+    if stall_wf p op sizes scs then
       let l := rpc_attempts p sizes scs in
-      let fc := final_code l in
-      Some (Z.of_nat (length l) :: concat (map enc_attempt l) ++ [fc; if fc =? 0 then 1 else 0])
+      let fr := final_res p (quiesced op) (Z.of_nat (length sizes)) l in
+      Some (Z.of_nat (length l) :: concat (map enc_attempt l) ++ [fst fr; snd fr])
     else None
   | None => None
   end.
@@ -204,43 +271,64 @@ Fixpoint chunk4 (fuel : nat) (w : word) : option (list word * word) :=
            end
   end.
 
-Definition hd_script (scs : list script) : script := match scs with s :: _ => s | [] => default_script end.
+(* a transparent retry is due: nothing committed, first attempt, stream unprocessed *)
+Definition transp (ovf first : bool) (sc : script) : bool := negb ovf && first && unproc sc.
 
-Definition retryable (p : policy) (ovf : bool) (k : Z) (sc : script) : bool :=
-  negb ovf && (s_act sc =? 0) && in_codes p (s_code sc) && ((s_pb sc =? 0) || (s_pb sc =? 1)) &&
+(* a counted (policy) retry is due; an unprocessed stream that is not the first attempt's
+   counts as a trailers-only UNAVAILABLE *)
+Definition retryable (p : policy) (ovf first : bool) (k : Z) (sc : script) : bool :=
+  negb ovf && negb (first && unproc sc) &&
+  (if unproc sc then in_codes p 14
+   else (s_act sc =? 0) && in_codes p (s_code sc) && ((s_pb sc =? 0) || (s_pb sc =? 1))) &&
   (k + 1 <? eff_max p).
 
+Definition prev_of (w : word) : Z := match w with x :: _ => x | [] => -1 end.
+
 (* clause ids
-   1 the number of attempts never exceeds min(policy maxAttempts, channel limit)
-   2 attempt k carries grpc-previous-rpc-attempts = k and receives exactly the application's
-     messages so far, in order: the first min(r_k, m), and the half-close iff r_k > m
-   3 an attempt is retried only if it was uncommitted (no first-message overflow), ended
-     trailers-only with a code of the policy, without an aborting pushback, below the attempt
-     limit; and the last attempt is one that must not be retried
-   4 the client reports the status of the last attempt; a reply is delivered iff it is OK *)
-Fixpoint att_clauses (p : policy) (m : Z) (ovf : bool) (scs : list script) (k : Z) (l : list word)
-  (fc nrep : Z) : list (Z * Z * bool) :=
+   1 the number of attempts never exceeds min(policy maxAttempts, channel limit), plus one
+     when the first attempt's stream was unprocessed (its transparent retry is not counted)
+   2 attempt number i carries grpc-previous-rpc-attempts = number of counted retries so far and
+     receives exactly the application's messages so far, in order: the first min(r_i, m), and
+     the half-close iff r_i > m; nothing if the server did not process the stream
+   3 an attempt is followed by another one iff a retry was due: uncommitted (replay buffer
+     limit not exceeded by any message produced so far) and either trailers-only with a code of
+     the policy, without an aborting pushback, below the attempt limit, or a first attempt
+     whose stream was unprocessed; and the last attempt is one that must not be retried
+   4 the client reports the status of the last attempt; a reply is delivered iff it is OK
+     (except the masked case described at [final_of])
+   5 a retry that is not counted (same previous-attempts value as its predecessor) happens only
+     after a first attempt whose stream was unprocessed, with nothing committed
+   6 the retry of an unprocessed first attempt is not counted *)
+Fixpoint att_clauses (p : policy) (q : bool) (sizes : list Z) (scs : list script) (first : bool) (k sent : Z)
+  (l : list word) (fc nrep : Z) : list (Z * Z * bool) :=
   match l with
   | [] => []
   | w :: r =>
     let sc := hd_script scs in
-    (2, k, word_eqb w [k; Z.min (s_r sc) m; 1; b2z (m <? s_r sc)]) ::
+    let m := Z.of_nat (length sizes) in
+    let sent' := sent_after m sent sc in
+    let ovf := over p sizes sent' in
+    (2, k, word_eqb w [k; recv_of m sc; 1; b2z (eof_of m sc)]) ::
     match r with
-    | [] => [(3, k, negb (retryable p ovf k sc));
-             (4, fc, (fc =? (if s_act sc =? 2 then 0 else s_code sc)) &&
-                     (nrep =? (if s_act sc =? 2 then 1 else 0)))]
-    | _ => (3, k, retryable p ovf k sc) :: att_clauses p m ovf (tl scs) (k + 1) r fc nrep
+    | [] => [(3, k, negb (retryable p ovf first k sc) && negb (transp ovf first sc));
+             (4, fc, (fc =? fst (final_of p q m first k sent sc)) && (nrep =? snd (final_of p q m first k sent sc)))]
+    | w2 :: _ =>
+      (3, k, retryable p ovf first k sc || transp ovf first sc) ::
+      (5, k, implb (prev_of w2 =? prev_of w) (transp ovf first sc)) ::
+      (6, k, implb (transp ovf first sc) (prev_of w2 =? prev_of w)) ::
+      att_clauses p q sizes (tl scs) false (if transp ovf first sc then k else k + 1) sent' r fc nrep
     end
   end.
 
-Definition clause_op (p : policy) (op obs : word) : list (Z * Z * bool) :=
+Definition clause_op (p0 : policy) (op obs : word) : list (Z * Z * bool) :=
+  let p := pol_of p0 op in
   match dec_op op, obs with
   | Some (sizes, scs), n :: rest =>
     if n <? 1 then [(0, 0, false)] else
     match chunk4 (Z.to_nat n) rest with
     | Some (l, [fc; nrep]) =>
-      (1, n, n <=? eff_max p) ::
-      att_clauses p (Z.of_nat (length sizes)) (first_overflows p sizes) scs 0 l fc nrep
+      (1, n, n <=? eff_max p + (if unproc (hd_script scs) then 1 else 0)) ::
+      att_clauses p (quiesced op) sizes scs true 0 0 l fc nrep
     | _ => [(0, 0, false)]
     end
   | _, _ => [(0, 0, false)]
